@@ -2,55 +2,111 @@ import Ww.Model.Sched
 import Ww.Proofs.C07
 /-!
 # C05 — Logout is final, whatever runs concurrently
+
+"The session" is the one whose cookie the logging-out browser holds (owner 0 in the model). A NEW login may land on the same store key
+(the provider re-uses the sid after a local logout); what it stores is another session, sealed with another data key, which the old cookie
+cannot read (`mine`). The statements therefore speak about `mine s.sess`: what a holder of the old cookie can still read.
 -/
 namespace Ww.Proofs.C05
 open Ww.Model.Sched
+open Ww.Proofs.C07 (Inv inv_step inv_init)
 
-/-- nothing re-creates a deleted session: the refresh write is "update only if present" in ONE store step -/
-theorem deleted_stays_deleted_step (s : St) (ev : Ev) (h : s.sess = none) : (apply s ev).sess = none := by
+theorem inv_crash (s : St) (p : Pid) (h : Inv s) : Inv (crash s p) := by
+  obtain ⟨h1, h2, h3, h4, h5, h6, h7, h8, h9, h10⟩ := h
+  unfold crash
+  constructor <;> grind [setProc, inCrit]
+
+theorem inv_apply (s : St) (ev : Ev) (h : Inv s) : Inv (apply s ev) := by
   cases ev with
-  | crash p => simp [apply, crash, h]
-  | run p =>
-    unfold apply step
-    simp only []
-    split <;> (repeat' split) <;> simp_all
+  | run p => exact inv_step s p h
+  | crash p => exact inv_crash s p h
 
-theorem deleted_stays_deleted (s : St) (evs : List Ev) (h : s.sess = none) : (runAll s evs).sess = none := by
+theorem inv_runAll (s : St) (evs : List Ev) (h : Inv s) : Inv (runAll s evs) := by
   induction evs generalizing s with
   | nil => exact h
-  | cons e es ih => exact ih _ (deleted_stays_deleted_step s e h)
+  | cons e es ih => exact ih _ (inv_apply s e h)
+
+/-- nothing brings the logged-out session back: the refresh write-back is "update only if present" in ONE store step, and a new login that
+    re-uses the key writes only while holding the refresh lock, so a write-back can never land on top of it -/
+theorem deleted_stays_deleted_step (s : St) (ev : Ev) (hI : Inv s) (h : mine s.sess = none) : mine (apply s ev).sess = none := by
+  cases ev with
+  | crash p => simpa [apply, crash] using h
+  | run p =>
+    by_cases hu : (s.procs p).pc = .update
+    · -- the write-back: by the invariant the entry, if present, is still the old session – but then it would be readable
+      have ho := fun v hv => hI.ownUpdate p v hu hv
+      unfold apply step
+      simp only [hu]
+      split
+      · rename_i v hv
+        have := ho v hv
+        simp [mine, hv, this] at h
+      · simpa using h
+    · unfold apply step
+      simp only []
+      split <;> (try contradiction) <;> (repeat' split) <;> simp_all [mine]
+
+theorem deleted_stays_deleted (s : St) (evs : List Ev) (hI : Inv s) (h : mine s.sess = none) : mine (runAll s evs).sess = none := by
+  induction evs generalizing s with
+  | nil => exact h
+  | cons e es ih => exact ih _ (inv_apply s e hI) (deleted_stays_deleted_step s e hI h)
 
 /-- the delete step of a logout removes the entry -/
 theorem del_removes (s : St) (p : Pid) (h : (s.procs p).pc = .del) : (step s p).1.sess = none ∧ ((step s p).1.procs p).pc = .done := by
   unfold step
   simp [h]
 
-/-- **C05.** For every schedule `pre ++ [p] ++ post` of any number of concurrent refreshing / reading / logging-out processes (and crashes) in which
-    process `p` is a logout that performs its delete after `pre`: at the end — and at every later moment — the session's store entry does not exist. -/
-theorem logout_is_final (s0 : St) (pre post : List Ev) (p : Pid) (h : ((runAll s0 pre).procs p).pc = .del) :
-    (runAll s0 (pre ++ [.run p] ++ post)).sess = none := by
+/-- **C05.** For every schedule `pre ++ [p] ++ post` of any number of concurrent refreshing / reading / logging-out processes, NEW LOGINS that land
+    on the same store key, and crashes, in which process `p` is a logout that performs its delete after `pre`: at the end — and at every later
+    moment — nothing the old cookie can read exists in the store. -/
+theorem logout_is_final (kinds : Pid → Kind) (g0 : Nat) (pre post : List Ev) (p : Pid)
+    (h : ((runAll (init kinds g0) pre).procs p).pc = .del) :
+    mine (runAll (init kinds g0) (pre ++ [.run p] ++ post)).sess = none := by
+  have hI := inv_runAll _ pre (inv_init kinds g0)
   unfold runAll at *
   rw [List.foldl_append, List.foldl_append]
   apply deleted_stays_deleted
-  simp only [List.foldl_cons, List.foldl_nil, apply]
-  exact (del_removes _ p h).1
+  · exact inv_apply _ (.run p) hI
+  · simp only [List.foldl_cons, List.foldl_nil, apply]
+    rw [(del_removes _ p h).1]; rfl
 
-/-- a request that has not yet reached the provider when the entry is gone never reaches it: nothing is presented, nothing is written -/
-theorem no_refresh_after_logout (s : St) (q : Pid) (h : s.sess = none) (hq : (s.procs q).pc ≠ .idp) :
-    ((step s q).1.procs q).pc ≠ .idp ∧ (step s q).1.presented = s.presented ∧ (step s q).1.sess = none := by
-  unfold step
-  simp only []
-  split <;> (try contradiction) <;> (repeat' split) <;> simp_all [setProc]
-  · cases hk : (s.procs q).kind <;> simp [startNext]
-  · have := Ww.Proofs.C07.getNext_outside (s.procs q).kind none
-    rcases this with h1 | h1 | h1 <;> simp [h1]
+/-- a write-back never lands on a newer login's session: whenever a refresher is about to write, the entry is absent or still its own -/
+theorem writeback_never_hits_new_login (kinds : Pid → Kind) (g0 : Nat) (evs : List Ev) (p : Pid) (v : Sess) :
+    let s := runAll (init kinds g0) evs
+    (s.procs p).pc = .update → s.sess = some v → v.owner = 0 :=
+  fun hp hv => (inv_runAll _ evs (inv_init kinds g0)).ownUpdate p v hp hv
 
-/-- with no store entry a refresh / info request is answered 401 and a proxied request goes on WITHOUT a token (status 200 = forwarded unauthenticated) -/
+/-- a request that has not yet reached the provider when the entry is gone never reaches it: nothing is presented, nothing readable is written -/
+theorem no_refresh_after_logout (s : St) (q : Pid) (hI : Inv s) (h : mine s.sess = none) (hq : (s.procs q).pc ≠ .idp) :
+    ((step s q).1.procs q).pc ≠ .idp ∧ (step s q).1.presented = s.presented ∧ mine (step s q).1.sess = none := by
+  refine ⟨?_, ?_, deleted_stays_deleted_step s (.run q) hI h⟩
+  · unfold step
+    simp only []
+    split <;> (try contradiction) <;> (repeat' split) <;> simp_all [setProc]
+    · cases hk : (s.procs q).kind <;> simp [startNext]
+    · have := Ww.Proofs.C07.getNext_outside (s.procs q).kind none
+      rcases this with h1 | h1 | h1 <;> simp [h1]
+  · unfold step
+    simp only []
+    split <;> (try contradiction) <;> (repeat' split) <;> simp_all [setProc]
+
+/-- with no readable store entry a refresh / info request is answered 401 and a proxied request goes on WITHOUT a token (status 200 = forwarded unauthenticated) -/
 theorem after_logout_unauthenticated (k : Kind) : (getNext k none).1 = .done ∨ (getNext k none).1 = .del := by
   cases k <;> simp [getNext]
 
 -- non-vacuity: logout lands between a refresher's provider call and its write-back; the entry stays deleted and the refresher answers 401
 example : let s := [0, 0, 0, 0, 0, 1, 1, 1, 0, 0, 0].foldl (fun s p => (step s p).1) (init (fun p => if p = 1 then .logoutLocal else .refresh) 0)
     s.sess = none ∧ s.lock = none ∧ (s.procs 0).status = 401 ∧ (s.procs 1).status = 204 ∧ s.presented = [0] := by decide
+
+-- non-vacuity with a new login: refresher 0 is between provider call and write-back, 1 logs out locally, 2 logs in again on the same key (it has to
+-- wait for the lock); the write-back finds nothing, the new session is stored, the old cookie reads nothing
+example : let s := [0, 0, 0, 0, 0, 1, 1, 1, 2, 2, 2, 2, 0, 0, 2, 2, 2].foldl (fun s p => (step s p).1) (init (fun p => if p = 1 then .logoutLocal else if p = 2 then .relogin else .refresh) 0)
+    mine s.sess = none ∧ s.sess = some ⟨0, false, true, 3⟩ ∧ s.lock = none ∧ (s.procs 0).status = 401 ∧ (s.procs 1).status = 204 ∧ (s.procs 2).status = 302 := by decide
+
+/-- **witness of the defect repaired by fix 078aa22** (`createLocks := false` = session creation without the lock): the same schedule lets the
+    write-back of the logged-out session land on top of the new login — the OLD cookie reads a session again (and the new one does not) -/
+theorem resurrection_without_create_lock :
+    let s := [0, 0, 0, 0, 0, 1, 1, 1, 2, 2, 2, 0, 0].foldl (fun s p => (step s p).1) { init (fun p => if p = 1 then .logoutLocal else if p = 2 then .relogin else .refresh) 0 with createLocks := false }
+    (s.procs 1).status = 204 ∧ (s.procs 2).status = 302 ∧ mine s.sess = some ⟨1, true, true, 0⟩ := by decide
 
 end Ww.Proofs.C05
